@@ -69,8 +69,13 @@ class Module:
                 self.classes[n.name] = n
 
 
-class Loop(Exception):
-    pass
+class Fork(Exception):
+    """a call inlined inside an expression branches on a run-time condition: the enclosing statement is re-executed
+    once per truth value of that condition (conditions are texts over immutable symbolic variables, so an assumption
+    holds along the whole path)"""
+
+    def __init__(self, cond):
+        self.cond = cond
 
 
 class Translator:
@@ -82,6 +87,10 @@ class Translator:
         self.consts = consts
         self.records = records
         self.prims = prims or {}
+        self.value_methods = {}     # (value kind, method name) -> fn(tr, base, args, node)   [for non-object values]
+        self.value_attrs = {}       # (value kind, attribute name) -> fn(tr, base, node)
+        self.value_subscripts = {}  # value kind -> fn(tr, base, slice node, env, heap, node)
+        self.assume = {}       # condition text -> truth value assumed on the current path (see Fork)
         self.pending = []      # guards / option binds raised by the expression being evaluated (see with_pending)
         self.aux = []          # generated auxiliary Fixpoints (loops), in order
         self.aux_names = {}
@@ -161,6 +170,8 @@ class Translator:
             _bad(node, "unknown name")
         if isinstance(node, ast.Tuple):
             return ("tup", [self.expr(e, env, heap) for e in node.elts])
+        if isinstance(node, ast.List):
+            return ("pylist", [self.expr(e, env, heap) for e in node.elts])
         if isinstance(node, ast.UnaryOp):
             v = self.expr(node.operand, env, heap)
             if isinstance(node.op, ast.USub):
@@ -222,9 +233,7 @@ class Translator:
         if isinstance(node, ast.Attribute):
             return self.load_attr(node, env, heap)
         if isinstance(node, ast.Call):
-            tree = self.call(node, env, heap, lambda v, h: ("ret", v, h))
-            if tree[0] != "ret":
-                _bad(node, "call with control flow inside an expression")
+            tree = self.resolve(self.call(node, env, heap, lambda v, h: ("ret", v, h)), node)
             self.absorb(heap, tree[2])
             return tree[1]
         _bad(node, "expression kind")
@@ -367,6 +376,16 @@ class Translator:
         parts = [p for p in parts if p[0] != "static"]
         return self._fold(parts, True) if parts else ("static", True)
 
+    def resolve(self, tree, node):
+        """the result tree of a call inlined inside an expression, on the current path"""
+        while tree[0] == "if":
+            if tree[1] not in self.assume:
+                raise Fork(tree[1])
+            tree = tree[2] if self.assume[tree[1]] else tree[3]
+        if tree[0] != "ret":
+            _bad(node, "call that can raise or loop inside an expression")
+        return tree
+
     def absorb(self, heap, new):
         """a call inlined inside an expression returned plainly but stored attributes (a memoising getter): the
         stores take effect on the current path (heaps are copied whenever paths diverge)"""
@@ -413,6 +432,8 @@ class Translator:
 
     def subscript(self, node, env, heap):
         base = self.expr(node.value, env, heap)
+        if base[0] in self.value_subscripts:
+            return self.value_subscripts[base[0]](self, base, node.slice, env, heap, node)
         if base[0] != "L":
             _bad(node, "subscript of a non-list")
         idx = self.num(self.expr(node.slice, env, heap))
@@ -436,14 +457,15 @@ class Translator:
         if base[0] == "symobj":
             heap = copy.deepcopy(heap)
             base = self.sym_object(base[1], base[2], heap)
+        if (base[0], node.attr) in self.value_attrs:
+            return self.value_attrs[(base[0], node.attr)](self, base, node)
         if base[0] != "ref":
             _bad(node, "attribute of a non-object")
         obj = heap[base[1]]
         getter = self.find_member(obj["__class__"], node.attr, "getter")
         if getter is not None:
             tree = self.call_def(getter, [base], {}, heap, lambda v, h: ("ret", v, h))
-            if tree[0] != "ret":
-                _bad(node, "property getter with control flow")
+            tree = self.resolve(tree, node)
             self.absorb(heap, tree[2])
             return tree[1]
         if node.attr in obj:
@@ -470,6 +492,11 @@ class Translator:
             a, b = self.unify(self.num(self.expr(node.args[0], env, heap)), self.num(self.expr(node.args[1], env, heap)), node)
             fn = {"Q": {"max": "Qmax", "min": "Qmin"}, "Z": {"max": "Z.max", "min": "Z.min"}}[a[0]][fname]
             return k((a[0], f"({fn} {a[1]} {b[1]})"), heap)
+        if fname == "abs" and len(node.args) == 1 and not kw:
+            x = self.num(self.expr(node.args[0], env, heap))
+            if x[0] == "num":
+                return k(("num", abs(x[1])), heap)
+            return k((x[0], f"({'Qabs' if x[0] == 'Q' else 'Z.abs'} {x[1]})"), heap)
         if fname == "round" and 1 <= len(node.args) <= 2:
             x = self.toQ(self.num(self.expr(node.args[0], env, heap)))
             n = self.expr(node.args[1], env, heap) if len(node.args) == 2 else NONE
@@ -479,6 +506,11 @@ class Translator:
         if fname in self.prims:
             args = [self.expr(a, env, heap) for a in node.args]
             return k(self.prims[fname](self, args, node), heap)
+        if fname == "len" and len(node.args) == 1 and not kw:
+            v = self.expr(node.args[0], env, heap)
+            if ("len", v[0]) in self.prims:
+                return k(self.prims[("len", v[0])](self, [v], node), heap)
+            _bad(node, "len of this kind of value")
         if fname == "isinstance" and len(node.args) == 2:
             v = self.expr(node.args[0], env, heap)
             cname = ast.unparse(node.args[1])
@@ -525,6 +557,10 @@ class Translator:
                 return self.call_def(d, args, kwv, heap, k)
             # obj.method(...)
             base = self.expr(f.value, env, heap)
+            if (base[0], f.attr) in self.value_methods:
+                if kw:
+                    _bad(node, "keyword arguments of a value method")
+                return k(self.value_methods[(base[0], f.attr)](self, base, args, node), heap)
             if base[0] != "ref":
                 _bad(node, "method of a non-object")
             d = self.find_member(heap[base[1]]["__class__"], f.attr, "method")
@@ -576,8 +612,21 @@ class Translator:
             return k_end(env, heap)
         saved, self.pending = self.pending, []
         mine = self.pending
+        env0, heap0 = dict(env), copy.deepcopy(heap)
         try:
             tree = self.block1(stmts, env, heap, k_ret, k_end, fn)
+        except Fork as f:
+            if f.cond in self.assume:
+                raise
+            del mine[:]
+            branches = []
+            for val in (True, False):
+                self.assume[f.cond] = val
+                try:
+                    branches.append(self.block(stmts, dict(env0), copy.deepcopy(heap0), k_ret, k_end, fn))
+                finally:
+                    del self.assume[f.cond]
+            tree = self.mk_if(f.cond, branches[0], branches[1])
         finally:
             self.pending = saved
         # exceptions the evaluation of this statement's expressions can raise, outermost first
@@ -615,6 +664,8 @@ class Translator:
             return ("raise", name)
         if isinstance(s, ast.If):
             c = self.truth(self.expr(s.test, env, heap), s)
+            if c[0] == "B" and c[1] in self.assume:
+                c = ("static", self.assume[c[1]])
             if c[0] == "static":
                 return self.block((s.body if c[1] else s.orelse) + rest, env, heap, k_ret, k_end, fn)
             t1 = self.block(s.body + rest, dict(env), copy.deepcopy(heap), k_ret, k_end, fn)
@@ -760,6 +811,10 @@ class Translator:
             if kind in ("Q", "Z", "nat"):
                 args.append((kind, nm))
                 binders.append(f"({nm} : {kind})")
+            elif kind in getattr(self, "param_kinds", {}):
+                val, binder = self.param_kinds[kind](nm)
+                args.append(val)
+                binders.append(binder)
             elif kind == "list":
                 ek = p[2]
                 if isinstance(ek, tuple):
@@ -856,6 +911,8 @@ class Translator:
             if extra:
                 raise TranslationError(f"object of class {obj['__class__']} carries attributes outside its record: {sorted(extra)}")
             return "{| " + "; ".join(f"{fld} := {self.toQ(obj[a])[1] if k == 'Q' else obj[a][1]}" for a, fld, k in fields) + " |}"
+        if v[0] in getattr(self, "renderers", {}):
+            return self.renderers[v[0]](self, v)
         raise TranslationError(f"cannot render a value of kind {v[0]}")
 
     def render(self, t, ret, has_raise, has_loop, opt_val, ind="  "):
